@@ -22,6 +22,7 @@ import os
 PURE_SKIP = ('CallExpr', 'CXXMemberCallExpr', 'CXXOperatorCallExpr', 'CXXConstructExpr', 'CompoundAssignOperator', 'CXXNewExpr', 'CXXDeleteExpr')
 CASTS = ('ImplicitCastExpr', 'CStyleCastExpr', 'CXXStaticCastExpr', 'CXXFunctionalCastExpr', 'CXXReinterpretCastExpr')
 ENABLED = not os.environ.get('GDSTK_SA_NO_NORMALISE')
+REL_NORMALISE = bool(os.environ.get('GDSTK_SA_REL'))
 
 
 def strip(n):
@@ -304,6 +305,13 @@ def _normalise(fn):
                     if swap:
                         set_children(n, [(r, 'lhs'), (l, 'rhs')])
                         changed = True
+            # N-REL: `a > b` -> `b < a`, `a >= b` -> `b <= a` (built-in comparison, operands without side effects)
+            elif k == 'BinaryOperator' and n.op in ('>', '>=') and REL_NORMALISE:
+                l, r = n.child('lhs'), n.child('rhs')
+                if l is not None and r is not None and not has_side_effects(l) and not has_side_effects(r):
+                    setj(n, op='<' if n.op == '>' else '<=')
+                    set_children(n, [(r, 'lhs'), (l, 'rhs')])
+                    changed = True
             # N-NOT
             elif k == 'IfStmt' and n.child('else') is not None and n.child('init') is None:
                 c = strip(n.child('cond'))
